@@ -328,9 +328,11 @@ fn staged(src: &str, between: Option<&String>, via_json: bool, opts: &Opts) -> O
     let rq = if let Some(b) = between {
         // the host does something else on this thread before it comes back to this query
         // (its result, error or panic is the host's business, not this query's)
+        crate::seams::set_in_between(true);
         let _ = std::panic::catch_unwind(std::panic::AssertUnwindSafe(|| {
             let _ = prqlc::prql_to_pl(b).and_then(prqlc::pl_to_rq);
         }));
+        crate::seams::set_in_between(false);
         if via_json {
             match prqlc::json::from_rq(&rq).and_then(|j| prqlc::json::to_rq(&j)) {
                 Ok(rq) => rq,
